@@ -57,17 +57,20 @@ MSTWeight(e, n) == IF NComp(e, n) # 1 THEN -1
 Renum(m, v) == Cardinality({u \in m : u < v})
 Induced(e, m) == {<<Renum(m, p[1]), Renum(m, p[2])>> : p \in {q \in e : q[1] \in m /\ q[2] \in m}}
 Masks(n) == (SUBSET Vs(n)) \ {{}}
+\* queries are observers: a graph object answers every query as a function of its edges alone, whatever was asked before.
+\* The adapter replays each order ("w": weighted, "u": hop-count shortest paths) on ONE object per order.
+QueryOrders == {<<"w", "u", "w">>, <<"u", "w", "u">>, <<"w", "w", "u">>, <<"u", "u", "w">>}
 OutU(n, e) == [kind |-> "ug", n |-> n, edges |-> e, cyc |-> HasCycleU(e, n), tree |-> (~HasCycleU(e, n) /\ Cardinality(e) = n - 1),
                iso |-> IsolatedU(e, n), nbr |-> [v \in Vs(n) |-> SuccU(e, v, n)],
                dist |-> DistMat(FALSE, e, n), wdist |-> WDistMat(FALSE, e, n), npaths |-> PathCount(FALSE, e, n),
-               mst |-> IF IsolatedU(e, n) # {} THEN -2 ELSE MSTWeight(e, n),
+               mst |-> IF IsolatedU(e, n) # {} THEN -2 ELSE MSTWeight(e, n), orders |-> QueryOrders,
                masks |-> [m \in Masks(n) |-> Induced(e, m)]]
 \* ---- directed ----------------------------------------------------------------------------------
 HasCycleD(e, n) == \E v \in Vs(n) : v \in ReachFrom(TRUE, e, SuccD(e, v, n), n)
 IsolatedD(e, n) == {v \in Vs(n) : SuccD(e, v, n) = {} /\ PredD(e, v, n) = {}}
 OutD(n, e) == [kind |-> "dg", n |-> n, edges |-> e, cyc |-> HasCycleD(e, n), iso |-> IsolatedD(e, n),
                children |-> [v \in Vs(n) |-> SuccD(e, v, n)], parents |-> [v \in Vs(n) |-> PredD(e, v, n)],
-               dist |-> DistMat(TRUE, e, n), wdist |-> WDistMat(TRUE, e, n), npaths |-> PathCount(TRUE, e, n),
+               dist |-> DistMat(TRUE, e, n), wdist |-> WDistMat(TRUE, e, n), npaths |-> PathCount(TRUE, e, n), orders |-> QueryOrders,
                masks |-> [m \in Masks(n) |-> Induced(e, m)]]
 \* ---- rooted trees: parent function over the non-root vertices --------------------------------------
 TreeEdges(n, root, par) == {<<par[v], v>> : v \in Vs(n) \ {root}}
